@@ -13,6 +13,8 @@ Line(e) == l <= Len(Trace) /\ Ev.ev = e /\ l' = l + 1
 TBegin == Line("HBegin") /\ vals' = <<>> /\ dirty' = FALSE /\ ast' = Ev.ast /\ rev' = Ev.rev
 TAppend == Line("Append") /\ vals' = Append(vals, Ev.v) /\ (dirty \/ Ev.rows = Len(vals')) /\ UNCHANGED <<dirty, ast, rev>>
 TAppendMany == Line("AppendMany") /\ vals' = vals \o Ev.vs /\ (dirty \/ Ev.rows = Len(vals')) /\ UNCHANGED <<dirty, ast, rev>>
+\* the column adopts another definition of its type (an enum with the same names under other numbers): its contents stay
+TInfer == Line("Infer") /\ Ev.err = "" /\ ast' = Ev.ast /\ (dirty \/ Ev.rows = Len(vals)) /\ UNCHANGED <<vals, dirty, rev>>
 TReset == Line("Reset") /\ vals' = <<>> /\ dirty' = FALSE /\ Ev.rows = 0 /\ UNCHANGED <<ast, rev>>
 TPrepare == Line("Prepare") /\ (dirty \/ (Ev.err = "" /\ Ev.rows = Len(vals))) /\ UNCHANGED <<vals, dirty, ast, rev>>
 \* the raw block: columns, rows, name, type, flag, state, data - decoded by the specification
@@ -26,7 +28,7 @@ TDecodeOK == /\ Line("DecodeOK")
                 ELSE vals = <<>> /\ Ev.err = "" /\ Ev.read = Ev.data /\ Ev.rows = Len(Ev.data) /\ vals' = Ev.data
              /\ UNCHANGED <<dirty, ast, rev>>
 TDecodeFail == Line("DecodeFail") /\ Ev.err # "" /\ dirty' = TRUE /\ UNCHANGED <<vals, ast, rev>>
-Next == TBegin \/ TAppend \/ TAppendMany \/ TReset \/ TPrepare \/ TEncode \/ TDecodeOK \/ TDecodeFail
+Next == TBegin \/ TAppend \/ TAppendMany \/ TInfer \/ TReset \/ TPrepare \/ TEncode \/ TDecodeOK \/ TDecodeFail
 TSpec == Init /\ [][Next]_tvars
 HW == TLCSet(1, IF TLCGet(1) < l THEN l ELSE TLCGet(1))
 Accepted == PrintT(<<"HWM", TLCGet(1)>>) /\ TLCGet(1) = Len(Trace) + 1
